@@ -38,6 +38,10 @@ type JobSpec struct {
 	Trace       bool                        `json:"trace_mode"`
 	NoValidate  bool                        `json:"no_validate"`
 	Kinds       []string                    `json:"kinds"` // violation kinds that belong to this property (empty: all)
+	// other solver binaries the whole job is repeated with (thorough tier, or every tier when
+	// cross_tier is "all"): paths, sat/unsat counts and violation sites must agree with z3's
+	CrossSolvers []string `json:"cross_solvers"`
+	CrossTier    string   `json:"cross_tier"`
 }
 
 type PropConfig struct {
@@ -111,6 +115,8 @@ type procJob struct {
 	out     string
 	results []JobResult
 	wall    float64
+	solver  string   // "" = z3 (the deciding solver); otherwise a cross-check run
+	primary *procJob // the run a cross-check run is compared with
 }
 
 func cmdCheck(args []string) int {
@@ -232,6 +238,19 @@ func cmdCheck(args []string) int {
 		fmt.Println("INCONCLUSIVE: no jobs configured for", id, "in tier", *tier)
 		return 2
 	}
+	// cross-check runs: the same job with another solver
+	var shadows []*procJob
+	for _, j := range jobs {
+		if len(j.spec.CrossSolvers) == 0 || (*tier != "thorough" && j.spec.CrossTier != "all") || os.Getenv("VERIF_NO_CROSS") != "" {
+			continue
+		}
+		for _, sv := range j.spec.CrossSolvers {
+			c := *j
+			c.solver, c.primary, c.results = sv, j, nil
+			shadows = append(shadows, &c)
+		}
+	}
+	allJobs := append(append([]*procJob(nil), jobs...), shadows...)
 	n := *procs
 	if n <= 0 {
 		n = runtime.NumCPU()
@@ -239,7 +258,7 @@ func cmdCheck(args []string) int {
 	self, _ := os.Executable()
 	var wg sync.WaitGroup
 	sem := make(chan struct{}, n)
-	for i, j := range jobs {
+	for i, j := range allJobs {
 		j.out = filepath.Join(tmp, fmt.Sprintf("job%d.json", i))
 		wg.Add(1)
 		go func(j *procJob) {
@@ -250,6 +269,9 @@ func cmdCheck(args []string) int {
 				"-split", strconv.Itoa(j.split), "-known", strings.Join(knownIDs, ","), "-json", j.out, "-seed", strconv.Itoa(seed)}
 			if *tier == "thorough" {
 				a = append(a, "-qtimeout", "120000")
+			}
+			if j.solver != "" {
+				a = append(a, "-solver", j.solver)
 			}
 			if j.spec.FatalViol {
 				a = append(a, "-fatal-is-violation")
@@ -298,8 +320,9 @@ func cmdCheck(args []string) int {
 	// aggregate
 	ev := newEvidence(id, *tier, seed)
 	ev.addConfig(&cfg)
+	crossDis := crossCompare(shadows, ev)
 	exit := 0
-	inconclusive := []string{}
+	inconclusive := append([]string{}, crossDis...)
 	var newViol, knownViol []vrec
 	seenFinding := map[string]bool{}
 	for _, j := range jobs {
@@ -579,4 +602,67 @@ func runReplayBatch(items []*rp) {
 		}(g)
 	}
 	wg.Wait()
+}
+
+// crossCompare checks that every cross-check run took the same decisions as the z3 run it
+// shadows: same number of paths, same sat / unsat answers, same violation sites.
+func crossCompare(shadows []*procJob, ev *Evidence) []string {
+	var out []string
+	type agg struct {
+		runs, queries int
+		secs          float64
+		disagree      int
+	}
+	per := map[string]*agg{}
+	for _, sj := range shadows {
+		a := per[sj.solver]
+		if a == nil {
+			a = &agg{}
+			per[sj.solver] = a
+		}
+		pr := sj.primary
+		for i := range sj.results {
+			r := &sj.results[i]
+			a.runs++
+			a.queries += r.Queries
+			a.secs += r.SolverSecs
+			tag := fmt.Sprintf("%s[%d]", r.Entry, r.Split)
+			if i >= len(pr.results) {
+				continue
+			}
+			p := &pr.results[i]
+			if r.Fatal != "" || p.Fatal != "" {
+				if r.Fatal != "" && p.Fatal == "" {
+					out = append(out, fmt.Sprintf("%s: cross-check run with %s failed: %s", tag, sj.solver, r.Fatal))
+					a.disagree++
+				}
+				continue
+			}
+			sites := func(x *JobResult) string {
+				var s []string
+				for _, v := range x.Violations {
+					s = append(s, v.Kind+"|"+v.Site)
+				}
+				sort.Strings(s)
+				return strings.Join(s, "\n")
+			}
+			if r.Unknown > 0 {
+				out = append(out, fmt.Sprintf("%s: %s answered unknown %d times (cross-check incomplete)", tag, sj.solver, r.Unknown))
+				a.disagree++
+				continue
+			}
+			if r.Paths != p.Paths || r.Sat != p.Sat || r.Unsat != p.Unsat || sites(r) != sites(p) {
+				out = append(out, fmt.Sprintf("%s: %s disagrees with z3: paths %d vs %d, sat %d vs %d, unsat %d vs %d, violations %d vs %d", tag, sj.solver, r.Paths, p.Paths, r.Sat, p.Sat, r.Unsat, p.Unsat, len(r.Violations), len(p.Violations)))
+				a.disagree++
+			}
+		}
+	}
+	if len(per) > 0 {
+		m := map[string]interface{}{}
+		for k, a := range per {
+			m[k] = map[string]interface{}{"harness_runs_repeated": a.runs, "queries": a.queries, "solver_seconds": a.secs, "disagreements": a.disagree}
+		}
+		ev.Cross = m
+	}
+	return out
 }
